@@ -4,7 +4,7 @@
    compares with the committed pin (Properties/pins/C01.txt) so that a statement cannot be weakened
    silently; `Print Assumptions` lists the axioms it depends on (none are declared by this development). *)
 From Coq Require Import NArith List Bool String.
-From Octo Require Import Base.Bytes Crypto.Prims Lib.Framed Lib.WsFramed Model.Address Model.SsChunk Model.SsTcp Model.Trojan Model.Vmess Model.Relay Proofs.SsChunkRoundtrip Proofs.SsChunkCanon Proofs.SsTcpRoundtrip Proofs.TrojanFacts Proofs.VmessFacts Proofs.WsFramedFacts Proofs.RelayFacts Proofs.AddressFacts Proofs.VmessRoundtrip.
+From Octo Require Import Base.Bytes Crypto.Prims Lib.Framed Lib.WsFramed Model.Address Model.SsChunk Model.SsTcp Model.Trojan Model.Vmess Model.Relay Proofs.SsChunkRoundtrip Proofs.SsChunkCanon Proofs.SsTcpRoundtrip Proofs.TrojanFacts Proofs.VmessFacts Proofs.WsFramedFacts Proofs.RelayFacts Proofs.AddressFacts Proofs.VmessRoundtrip Model.EndToEnd Proofs.SsTcpStreamReq Proofs.SsTcpStreamResp Proofs.VmessStream Proofs.EndToEndFacts.
 Import ListNotations.
 Set Printing Width 200.
 
@@ -56,6 +56,194 @@ Definition C01_vmess_request := @request_roundtrip_vmess.
 (* codec level, VMess response *)
 Definition C01_vmess_response := @response_roundtrip_vmess.
 
+(* CAPSTONE (Model/EndToEnd.v, Proofs/EndToEndFacts.v): one whole flow - handshake, empty first message, any reads, any delivery (stream or WebSocket, per direction), every protocol family: the server dials exactly the handshake's target, sends it exactly the rest of the application's stream, the application receives exactly the target's bytes *)
+Definition C01_e2e_flow_transparent := @c01_flow_transparent.
+(* ... the bundled hypotheses of a flow, spelled out *)
+Definition C01_e2e_flow_ok_meaning := @flow_ok_meaning.
+(* ... per protocol: Shadowsocks (legacy / 2022 / 2022 with identity header) *)
+Definition C01_e2e_proto_ok_shadowsocks := @proto_ok_shadowsocks_meaning.
+(* ... VMess (every option mask below 32, both securities) *)
+Definition C01_e2e_proto_ok_vmess := @proto_ok_vmess_meaning.
+(* ... Trojan *)
+Definition C01_e2e_proto_ok_trojan := @proto_ok_trojan_meaning.
+(* ... the Shadowsocks-2022 first-read exemption as a condition on the arrival counts *)
+Definition C01_e2e_delivery_ok_shadowsocks := @delivery_ok_shadowsocks_meaning.
+(* ... no condition on the delivery for the other protocols *)
+Definition C01_e2e_delivery_ok_others := @delivery_ok_others_meaning.
+(* ... what passing a pump exactly once means *)
+Definition C01_e2e_delivered_exactly_once_meaning := @delivered_exactly_once_meaning.
+(* request direction, every protocol family: any writes, any delivery *)
+Definition C01_e2e_proto_request := @proto_request_transparent.
+(* answer direction, every protocol family *)
+Definition C01_e2e_proto_answer := @proto_answer_transparent.
+(* the WebSocket transport gives the same flow as the stream transport carrying the message payloads as segments *)
+Definition C01_e2e_ws_same_as_stream := @e2e_ws_same_as_stream.
+(* ... because every delivery is a FramedRead run over its segments *)
+Definition C01_e2e_transport_run_segments := @transport_run_segments.
+(* over a WebSocket delivering the encoder's own messages the first-read condition holds by itself (request) *)
+Definition C01_e2e_own_ws_request := @own_ws_request_delivery_ok.
+(* ... (answer) *)
+Definition C01_e2e_own_ws_answer := @own_ws_answer_delivery_ok.
+(* a first (non-empty) segment holding salt and fixed header suffices for the first-read condition *)
+Definition C01_e2e_first_read_first_big := @first_read_ok_first_big.
+(* at any time: what the decoder has released is a prefix of what it releases in the end *)
+Definition C01_e2e_items_prefix := @run_items_prefix.
+(* pump fed by given items: delivered is a prefix at any time, everything plus orderly shutdown once the source ended *)
+Definition C01_e2e_pumps_deliver := @pumps_deliver.
+(* request direction from the handshake to the target's socket *)
+Definition C01_e2e_flow_request_exact := @flow_request_exact.
+(* answer direction from the target's socket to the application's *)
+Definition C01_e2e_flow_answer_exact := @flow_answer_exact.
+(* when the target closes after answering, the application receives the complete answer followed by end-of-stream (codecs + pumps + exit paths) *)
+Definition C01_e2e_target_closes_after_answering := @e2e_target_closes_after_answering.
+(* per protocol, hypotheses spelled out: Trojan *)
+Definition C01_e2e_target_exact_trojan := @e2e_target_exact_trojan.
+(*  *)
+Definition C01_e2e_request_bytes_exact_trojan := @e2e_request_bytes_exact_trojan.
+(*  *)
+Definition C01_e2e_response_bytes_exact_trojan := @e2e_response_bytes_exact_trojan.
+(* VMess *)
+Definition C01_e2e_target_exact_vmess := @e2e_target_exact_vmess.
+(*  *)
+Definition C01_e2e_request_bytes_exact_vmess := @e2e_request_bytes_exact_vmess.
+(*  *)
+Definition C01_e2e_response_bytes_exact_vmess := @e2e_response_bytes_exact_vmess.
+(* Shadowsocks legacy *)
+Definition C01_e2e_target_exact_sslegacy := @e2e_target_exact_sslegacy.
+(*  *)
+Definition C01_e2e_request_bytes_exact_sslegacy := @e2e_request_bytes_exact_sslegacy.
+(*  *)
+Definition C01_e2e_response_bytes_exact_sslegacy := @e2e_response_bytes_exact_sslegacy.
+(* Shadowsocks 2022 *)
+Definition C01_e2e_target_exact_ss2022 := @e2e_target_exact_ss2022.
+(*  *)
+Definition C01_e2e_request_bytes_exact_ss2022 := @e2e_request_bytes_exact_ss2022.
+(*  *)
+Definition C01_e2e_response_bytes_exact_ss2022 := @e2e_response_bytes_exact_ss2022.
+(* Shadowsocks 2022 with identity header *)
+Definition C01_e2e_target_exact_ss2022_identity := @e2e_target_exact_ss2022_identity.
+(*  *)
+Definition C01_e2e_request_bytes_exact_ss2022_identity := @e2e_request_bytes_exact_ss2022_identity.
+(*  *)
+Definition C01_e2e_response_bytes_exact_ss2022_identity := @e2e_response_bytes_exact_ss2022_identity.
+(* down to the request bytes: SOCKS5 CONNECT names exactly that address *)
+Definition C01_e2e_socks5_connect_flow := @c01_socks5_connect_flow.
+(* HTTP CONNECT *)
+Definition C01_e2e_http_connect_flow := @c01_http_connect_flow.
+(* CONNECT host:port names exactly that host and port *)
+Definition C01_e2e_http_connect_host_port_flow := @c01_http_connect_host_port_flow.
+(* plain HTTP proxy request: forwarded untouched from its first byte *)
+Definition C01_e2e_plain_http_flow := @c01_plain_http_flow.
+(* ... absolute URI without port goes to port 80 *)
+Definition C01_e2e_plain_http_default_port_flow := @c01_plain_http_default_port_flow.
+(* codec level (new): Shadowsocks 2022 request, any writes, any segmentation satisfying the first-read condition *)
+Definition C01_ss2022_request_stream := @ss2022_request_stream.
+(* legacy request as inbound items *)
+Definition C01_sslegacy_request_stream := @sslegacy_request_stream.
+(* 2022 request with identity header *)
+Definition C01_ss2022_identity_request_stream := @ss2022_identity_request_stream.
+(* 2022 answer *)
+Definition C01_ss2022_response_stream := @ss2022_response_stream.
+(* legacy answer *)
+Definition C01_sslegacy_response_stream := @sslegacy_response_stream.
+(* VMess request: header cut anywhere, then body *)
+Definition C01_vmess_request_stream := @vmess_request_stream.
+(* VMess answer *)
+Definition C01_vmess_response_stream := @vmess_response_stream.
+(* the two directions share the codec record but not its parts *)
+Definition C01_ss_encode_reads_enc_only := @ss_encode_reads_enc_only.
+(*  *)
+Definition C01_ss_decode_keeps_enc := @ss_decode_keeps_enc.
+(* non-vacuity: one concrete flow per family satisfies every hypothesis and evaluates to the expected target and bytes *)
+Definition C01_e2e_example_trojan_ok := @E2EExamples.tj_flow_ok.
+(*  *)
+Definition C01_e2e_example_trojan := @E2EExamples.tj_flow.
+(*  *)
+Definition C01_e2e_example_ss2022_ok := @E2EExamples.ss22_flow_ok.
+(*  *)
+Definition C01_e2e_example_ss2022 := @E2EExamples.ss22_flow.
+(* the first-read condition is a genuine hypothesis *)
+Definition C01_e2e_example_ss2022_first_read_needed := @E2EExamples.ss22_first_read_needed.
+(*  *)
+Definition C01_e2e_example_ss2022_identity_ok := @E2EExamples.ssid_flow_ok.
+(*  *)
+Definition C01_e2e_example_ss2022_identity := @E2EExamples.ssid_flow.
+(*  *)
+Definition C01_e2e_example_sslegacy_ok := @E2EExamples.ssl_flow_ok.
+(*  *)
+Definition C01_e2e_example_sslegacy := @E2EExamples.ssl_flow.
+(*  *)
+Definition C01_e2e_example_vmess_ok := @E2EExamples.vm_flow_ok.
+(*  *)
+Definition C01_e2e_example_vmess := @E2EExamples.vm_flow.
+
+(* every target the handshake hands out (SOCKS5, CONNECT, absolute URI) is one the codecs accept, provided the stream consists of bytes *)
+Definition C01_e2e_handshake_target_acceptable := @handshake_target_acceptable.
+(* ... so for a stream of bytes the two address hypotheses of flow_ok are consequences *)
+Definition C01_e2e_flow_transparent_bytes := @c01_flow_transparent_bytes.
+
+Check @C01_e2e_handshake_target_acceptable.
+Check @C01_e2e_flow_transparent_bytes.
+Check @C01_e2e_flow_transparent.
+Check @C01_e2e_flow_ok_meaning.
+Check @C01_e2e_proto_ok_shadowsocks.
+Check @C01_e2e_proto_ok_vmess.
+Check @C01_e2e_proto_ok_trojan.
+Check @C01_e2e_delivery_ok_shadowsocks.
+Check @C01_e2e_delivery_ok_others.
+Check @C01_e2e_delivered_exactly_once_meaning.
+Check @C01_e2e_proto_request.
+Check @C01_e2e_proto_answer.
+Check @C01_e2e_ws_same_as_stream.
+Check @C01_e2e_transport_run_segments.
+Check @C01_e2e_own_ws_request.
+Check @C01_e2e_own_ws_answer.
+Check @C01_e2e_first_read_first_big.
+Check @C01_e2e_items_prefix.
+Check @C01_e2e_pumps_deliver.
+Check @C01_e2e_flow_request_exact.
+Check @C01_e2e_flow_answer_exact.
+Check @C01_e2e_target_closes_after_answering.
+Check @C01_e2e_target_exact_trojan.
+Check @C01_e2e_request_bytes_exact_trojan.
+Check @C01_e2e_response_bytes_exact_trojan.
+Check @C01_e2e_target_exact_vmess.
+Check @C01_e2e_request_bytes_exact_vmess.
+Check @C01_e2e_response_bytes_exact_vmess.
+Check @C01_e2e_target_exact_sslegacy.
+Check @C01_e2e_request_bytes_exact_sslegacy.
+Check @C01_e2e_response_bytes_exact_sslegacy.
+Check @C01_e2e_target_exact_ss2022.
+Check @C01_e2e_request_bytes_exact_ss2022.
+Check @C01_e2e_response_bytes_exact_ss2022.
+Check @C01_e2e_target_exact_ss2022_identity.
+Check @C01_e2e_request_bytes_exact_ss2022_identity.
+Check @C01_e2e_response_bytes_exact_ss2022_identity.
+Check @C01_e2e_socks5_connect_flow.
+Check @C01_e2e_http_connect_flow.
+Check @C01_e2e_http_connect_host_port_flow.
+Check @C01_e2e_plain_http_flow.
+Check @C01_e2e_plain_http_default_port_flow.
+Check @C01_ss2022_request_stream.
+Check @C01_sslegacy_request_stream.
+Check @C01_ss2022_identity_request_stream.
+Check @C01_ss2022_response_stream.
+Check @C01_sslegacy_response_stream.
+Check @C01_vmess_request_stream.
+Check @C01_vmess_response_stream.
+Check @C01_ss_encode_reads_enc_only.
+Check @C01_ss_decode_keeps_enc.
+Check @C01_e2e_example_trojan_ok.
+Check @C01_e2e_example_trojan.
+Check @C01_e2e_example_ss2022_ok.
+Check @C01_e2e_example_ss2022.
+Check @C01_e2e_example_ss2022_first_read_needed.
+Check @C01_e2e_example_ss2022_identity_ok.
+Check @C01_e2e_example_ss2022_identity.
+Check @C01_e2e_example_sslegacy_ok.
+Check @C01_e2e_example_sslegacy.
+Check @C01_e2e_example_vmess_ok.
+Check @C01_e2e_example_vmess.
 Check @C01_vmess_request.
 Check @C01_vmess_response.
 Check @C01_pump_delivers_prefix.
@@ -88,3 +276,65 @@ Print Assumptions C01_ws_transport.
 Print Assumptions C01_address_exact.
 Print Assumptions C01_vmess_request.
 Print Assumptions C01_vmess_response.
+Print Assumptions C01_e2e_flow_transparent.
+Print Assumptions C01_e2e_flow_ok_meaning.
+Print Assumptions C01_e2e_proto_ok_shadowsocks.
+Print Assumptions C01_e2e_proto_ok_vmess.
+Print Assumptions C01_e2e_proto_ok_trojan.
+Print Assumptions C01_e2e_delivery_ok_shadowsocks.
+Print Assumptions C01_e2e_delivery_ok_others.
+Print Assumptions C01_e2e_delivered_exactly_once_meaning.
+Print Assumptions C01_e2e_proto_request.
+Print Assumptions C01_e2e_proto_answer.
+Print Assumptions C01_e2e_ws_same_as_stream.
+Print Assumptions C01_e2e_transport_run_segments.
+Print Assumptions C01_e2e_own_ws_request.
+Print Assumptions C01_e2e_own_ws_answer.
+Print Assumptions C01_e2e_first_read_first_big.
+Print Assumptions C01_e2e_items_prefix.
+Print Assumptions C01_e2e_pumps_deliver.
+Print Assumptions C01_e2e_flow_request_exact.
+Print Assumptions C01_e2e_flow_answer_exact.
+Print Assumptions C01_e2e_target_closes_after_answering.
+Print Assumptions C01_e2e_target_exact_trojan.
+Print Assumptions C01_e2e_request_bytes_exact_trojan.
+Print Assumptions C01_e2e_response_bytes_exact_trojan.
+Print Assumptions C01_e2e_target_exact_vmess.
+Print Assumptions C01_e2e_request_bytes_exact_vmess.
+Print Assumptions C01_e2e_response_bytes_exact_vmess.
+Print Assumptions C01_e2e_target_exact_sslegacy.
+Print Assumptions C01_e2e_request_bytes_exact_sslegacy.
+Print Assumptions C01_e2e_response_bytes_exact_sslegacy.
+Print Assumptions C01_e2e_target_exact_ss2022.
+Print Assumptions C01_e2e_request_bytes_exact_ss2022.
+Print Assumptions C01_e2e_response_bytes_exact_ss2022.
+Print Assumptions C01_e2e_target_exact_ss2022_identity.
+Print Assumptions C01_e2e_request_bytes_exact_ss2022_identity.
+Print Assumptions C01_e2e_response_bytes_exact_ss2022_identity.
+Print Assumptions C01_e2e_socks5_connect_flow.
+Print Assumptions C01_e2e_http_connect_flow.
+Print Assumptions C01_e2e_http_connect_host_port_flow.
+Print Assumptions C01_e2e_plain_http_flow.
+Print Assumptions C01_e2e_plain_http_default_port_flow.
+Print Assumptions C01_ss2022_request_stream.
+Print Assumptions C01_sslegacy_request_stream.
+Print Assumptions C01_ss2022_identity_request_stream.
+Print Assumptions C01_ss2022_response_stream.
+Print Assumptions C01_sslegacy_response_stream.
+Print Assumptions C01_vmess_request_stream.
+Print Assumptions C01_vmess_response_stream.
+Print Assumptions C01_ss_encode_reads_enc_only.
+Print Assumptions C01_ss_decode_keeps_enc.
+Print Assumptions C01_e2e_example_trojan_ok.
+Print Assumptions C01_e2e_example_trojan.
+Print Assumptions C01_e2e_example_ss2022_ok.
+Print Assumptions C01_e2e_example_ss2022.
+Print Assumptions C01_e2e_example_ss2022_first_read_needed.
+Print Assumptions C01_e2e_example_ss2022_identity_ok.
+Print Assumptions C01_e2e_example_ss2022_identity.
+Print Assumptions C01_e2e_example_sslegacy_ok.
+Print Assumptions C01_e2e_example_sslegacy.
+Print Assumptions C01_e2e_example_vmess_ok.
+Print Assumptions C01_e2e_example_vmess.
+Print Assumptions C01_e2e_handshake_target_acceptable.
+Print Assumptions C01_e2e_flow_transparent_bytes.
